@@ -1214,6 +1214,7 @@ package runtime
 //@   exits any
 //@   assert_before_call sendResumeValues: old(t.status) == ThreadOK && $t == old(t.caller) && (exception != nil ==> $exception == exception)   // (a thread that ends normally may still be interrupted while closing its pending variables: that exception is handed over instead)
 //@   assert_before_call ReleaseBytes: ghost(wake) == 0   // the thread does not touch the runtime's accounting after handing control back
+//@   assert_before_call sendResumeValues: t.closeErr == $err   // (C09) a later coroutine.close of the dead coroutine reports the error that was handed over, handlers' errors included
 //@   assert_before_call closePending: exception == nil   // (C05) a coroutine that ends because its context was terminated runs no __close handler: the termination cannot be followed by more Lua code of that context
 //@   ensures ghost(wake) == 1
 
@@ -1679,3 +1680,18 @@ package runtime
 //@   exits any
 //@   loop 1: invariant true
 //@   loop 2: invariant true
+
+// ---------------------------------------------------------------------------
+// C17: tostring of a float reads back as the same float
+// ---------------------------------------------------------------------------
+// The shortest decimal representation that round-trips (precision -1) is the
+// only precision for which tonumber(tostring(x)) == x holds for every finite
+// float; a fixed number of digits (%.14g) does not.
+//@ func (Value).ToString
+//@   prop C17
+//@   arith int
+//@   norte
+//@   nocover
+//@   modifies everything()
+//@   exits any
+//@   assert_before_call FormatFloat: arg1 == 'g' && arg2 == -1 && arg3 == 64
